@@ -57,7 +57,7 @@ func c02Build(n int) ([]c02Pol, types.Record, types.EntityUID, bool) {
 		}
 		cond := ast.Context().Access(c02Key(i, "e")).And(ast.Long(1).LessThan(ast.String("x"))).Or(ast.Context().Access(c02Key(i, "s")))
 		// an additional constant clause (foldable at compile time), before or after the main one
-		if i == 0 || (i == 1 && vrt.Thorough()) {
+		if i == 0 {
 			p.extra = vrt.Choice("extra-clause", len(c02Extra))
 			p.before = p.extra != 0 && vrt.Choice("extra-first", 2) == 1
 		}
